@@ -15,7 +15,7 @@ RAFT = {"dir": "consensus/raft", "pkgname": "raft"}
 FILES = ["raft/c01_rig_test.go", _fsm_variant(), "raft/c01_test.go", "raft/c01_r2_test.go", "raft/c17_test.go", "raft/c01_r3_test.go"]
 
 ROOT = {"dir": "", "pkgname": "ipfscluster"}
-ROOT_FILES = ["root/rig_test.go", "root/rig_c04_test.go", "root/c17_cluster_test.go", "root/c17_cluster_raft_test.go"]
+ROOT_FILES = ["root/rig_test.go", "root/rig_c04_test.go", "root/c17_cluster_test.go", "root/c17_cluster_raft_test.go", "root/c17_probe_test.go"]
 
 SPEC = {
     "go": [dict(RAFT, files=FILES, test="TestVerifC17", n_quick=60, n_thorough=1200, shards_quick=4, shards_thorough=12,
